@@ -171,8 +171,9 @@ def run(ctx: Ctx):
 
     # ---- trimming ------------------------------------------------------------------------------------------------------
     f_trim = I.get_function(f'{MU}.trim_list')
-    ctx.functions[f'{MU}.trim_list'] = 'proved for lists of length <= 4 (loops unrolled), items symbolic'
-    for n in range(0, 5):
+    trim_max = 4 if ctx.tier == 'quick' else 6
+    ctx.functions[f'{MU}.trim_list'] = f'proved for lists of length <= {trim_max} (loops unrolled), items symbolic'
+    for n in range(0, trim_max + 1):
         for end_only in (False, True):
             def mk_trim(p, n=n, end_only=end_only):
                 items = [s(p, f't{i}') for i in range(n)]
